@@ -399,6 +399,9 @@ func c15RunIDGen(w *simrt.World, tier string) {
 	}
 	crashNode := c.Intn(nodes, "crash.node")
 	checkFailDen := []int{0, 0, 4}[c.Intn(3, "check.fail")]
+	// swarm knob: every task works on ONE generator instance (intra-instance atomicity of check-and-mark,
+	// whatever the topology); otherwise tasks are spread over the instances
+	focusOne := c.Intn(4, "focus.one.instance") == 3
 
 	w.SetCrashSentinel(simstore.Crash)
 	cl := c15NewCluster(w, flavour, nodes)
@@ -500,6 +503,9 @@ func c15RunIDGen(w *simrt.World, tier string) {
 	var sleepSum time.Duration
 	for t := 0; t < ntasks; t++ {
 		p := plan{inst: insts[c.Intn(len(insts), "task.inst")]}
+		if focusOne {
+			p.inst = insts[0]
+		}
 		nops := 1 + c.Intn(4, "nops")
 		for j := 0; j < nops; j++ {
 			o := c15op{typ: "gen", kind: kinds[c.Intn(len(kinds), "op.kind")]}
@@ -770,7 +776,10 @@ func c15RunIDGen(w *simrt.World, tier string) {
 			_ = n
 		}
 	}
-	w.State(fmt.Sprintf("idgen/%s/n%d/i%d/direct=%v/pool%d/ids%d/exh=%v/ovl=%v/fail=%v", flavour, nodes, perNode, direct, poolN, len(keys), exhausted > 0, overlap, failed > exhausted))
+	if focusOne {
+		w.Probe("topology.all-tasks-on-one-instance")
+	}
+	w.State(fmt.Sprintf("idgen/%s/n%d/i%d/one=%v/direct=%v/pool%d/ids%d/exh=%v/ovl=%v/fail=%v", flavour, nodes, perNode, focusOne, direct, poolN, len(keys), exhausted > 0, overlap, failed > exhausted))
 	w.Sample(fmt.Sprintf("idgen %s nodes=%d inst/node=%d direct=%v marker-ttl=%v pool=%d kinds=%v tasks=%d: %d ok, %d exhausted, %d other errors, %d releases, %d entropy reads",
 		flavour, nodes, perNode, direct, insts[0].ttl, poolN, kinds, ntasks, len(gens), exhausted, failed-exhausted, len(rels), workReads))
 }
@@ -1097,7 +1106,7 @@ func init() {
 		Level: "exploration",
 		Rule: "each run draws a mode. (idgen, 10/16) a shared store flavour (CAS memory / CAS redis / tiered hybrid with id keys on the shared cache / tiered with a shared cache lacking SetNX / store lacking CASStore), 1-3 nodes x 1-2 generator instances (IDManager, or StorageIDGenerator with marker lifetime 7s/1h/never), " +
 			"an entropy pool of 1-8 values that replaces crypto/rand.Reader for the run (pool index drawn from the choice stream at every Read), 1-2 id kinds, per candidate id a pre-existing state (none / live marker / marker already expired / taken by a stored record), " +
-			"2-5 tasks with 1-4 operations each (Generate, Release of an id the task owns, GenerateUnique* with a check function that may fail, sleeps of 3s/61min/31d), store errors on one node (p=0,1/6,1/3) and a node crash before its k-th store operation; tasks are interleaved at statement granularity. " +
+			"2-5 tasks (spread over the instances, or in 1/4 of the runs all on one instance) with 1-4 operations each (Generate, Release of an id the task owns, GenerateUnique* with a check function that may fail, sleeps of 3s/61min/31d), store errors on one node (p=0,1/6,1/3) and a node crash before its k-th store operation; tasks are interleaved at statement granularity. " +
 			"(nodealloc, 5/16) 2-3 NodeIDAllocator contenders with 1-2 allocate/hold/release cycles (holds 0s..260s so heartbeat renewals and lease lapses occur), 0-3 or all 1000 slots pre-occupied with 20s/1h claims, a node crash, a 20s or 200s store outage of one holder. " +
 			"(uuid, 1/16) connection/tunnel/mapping-instance ids under the untouched full-entropy reader. " +
 			"Non-trivial: (idgen) at least one candidate collided and was retried, or generation ended in exhaustion, or two Generate calls for one kind overlapped; (nodealloc) two allocations overlapped, or two holders (incl. foreign) met on one slot, or an allocation failed. Distinct = distinct abstract state key (flavour, topology, pool size, outcome classes) and schedule hash.",
